@@ -400,6 +400,37 @@ impl<'tcx> Cx<'tcx> {
             }
             _ => {
                 v.push(("s", s(ty::print::with_no_trimmed_paths!(format!("{}", c.const_)))));
+                // a promoted constant that is (a reference to) a field-less enum variant: name the variant
+                if let mir::Const::Unevaluated(uv, _) = c.const_ {
+                    if let Some(pidx) = uv.promoted {
+                        if uv.def.is_local() {
+                            let got = std::panic::catch_unwind(std::panic::AssertUnwindSafe(|| {
+                                let pm = self.tcx.promoted_mir(uv.def);
+                                let mut found: Option<(String, String)> = None;
+                                if let Some(pb) = pm.get(pidx) {
+                                    for bbd in pb.basic_blocks.iter() {
+                                        for st in bbd.statements.iter() {
+                                            if let StatementKind::Assign(bx) = &st.kind {
+                                                if let Rvalue::Aggregate(kind, fields) = &bx.1 {
+                                                    if let AggregateKind::Adt(adid, vidx, _, _, _) = &**kind {
+                                                        if fields.is_empty() {
+                                                            let adt = self.tcx.adt_def(*adid);
+                                                            found = Some((self.path(*adid), adt.variant(*vidx).name.to_string()));
+                                                        }
+                                                    }
+                                                }
+                                            }
+                                        }
+                                    }
+                                }
+                                found
+                            }));
+                            if let Ok(Some((adt, vn))) = got {
+                                v.push(("enum_const", J::O(vec![("adt", s(adt)), ("variant", s(vn))])));
+                            }
+                        }
+                    }
+                }
                 // scalar value if evaluated
                 let env = TypingEnv::post_analysis(self.tcx, owner);
                 let val = std::panic::catch_unwind(std::panic::AssertUnwindSafe(|| {
